@@ -369,6 +369,18 @@ func (c *Ctx) checkOperandNotComment(rule string) {
 		return
 	}
 	for g, pos := range readers {
+		// the operand of a prefix operator is at the operator's own depth: a prefix operator opens nothing, and the
+		// depth decides whether the end of the available text may be the end of the text (%%a at the end of a text)
+		if g != pe && rule == "C13-OPCMT" {
+			for _, site := range callsOf(g, pe) {
+				args := site.Common().Args
+				d := args[len(args)-1]
+				_, isParam := d.(*ssa.Parameter)
+				c.check(isParam, "C13-OPDEPTH", fnName(g), "operand parsed at the operator's depth", site.Pos(),
+					"the nested expression is parsed at the depth the operand reader was given",
+					"the operand of a prefix operator is parsed one level deeper than the operator although nothing was opened: for nested prefix operators at top level (%%a, %~a) the inner operand reader believes it is inside a bracket, does not terminate the atom pending in the lexer, and the complete text asks for more input")
+			}
+		}
 		tests := false
 		for _, site := range callsOf(g, pe) {
 			v, ok := site.(ssa.Value)
